@@ -109,7 +109,7 @@ theorem C01_full_fails_iterable_elem : ¬ C01_full := by
     (by simp [wB, wV, inst, instAll, instAny, Ty.isAny, Rng.contains])
   have hf : inst idCfg false wA wV = false := by
     simp [wA, wV, inst, elemType, ptype, ptypeFold, commonType, commonF, asg, asgRecv, asgAllR, asgAnyL, sameNullary,
-      Rng.sub, Rng.exact, Rng.hull]
+      Rng.sub, Rng.exact, Rng.hull, Ty.isUnit]
     omega
   rw [hf] at this; cases this
 
